@@ -827,6 +827,114 @@ Lemma spec_oracle_flags_witness :
           (run_entry false 4 None (w_import 10) (wstore (w_import 10) [7;8;9] [])) = true.
 Proof. split; vm_compute; reflexivity. Qed.
 
+(* ------------------------------------------------------------------ three steps: open, write, the
+   same request again.  Whatever a successful open left behind (a verified header or a header
+   re-created by the reset arm), writing contents and repeating the SAME request returns them. *)
+Lemma fill_facts fam size clen rv f d h s m0 :
+  s_main s = Some m0 -> m_hdr m0 = hdr_of rv f -> 0 < size ->
+  (fam = Raw -> h = [] -> s_holes s = None) ->
+  (fam = Comp -> d = [] ->
+   HEADER_OFFSET <= m_len m0 /\ m_data m0 = [] /\ s_pages s = Some {| a_len := 0; a_data := [] |}) ->
+  exists m2, s_main (fill fam size clen d h s) = Some m2 /\ HEADER_OFFSET <= m_len m2 /\
+             m_hdr m2 = hdr_of rv f /\ aligned fam size m2 /\ aux_wf fam (fill fam size clen d h s) /\
+             after_open fam (fill fam size clen d h s) = fill fam size clen d h s /\
+             view_of fam (fill fam size clen d h s) m2 =
+             {| v_data := d; v_holes := match fam with Raw => h | Comp => [] end |}.
+Proof.
+  intros Hm Hh Hs Hr Hc. unfold fill. rewrite Hm. destruct fam.
+  - eexists. destruct s as [mm pp hh]; cbn [s_main s_holes s_pages with_main with_holes] in *.
+    destruct h as [|x h].
+    + rewrite (Hr eq_refl eq_refl). cbn [s_main].
+      repeat apply conj; try reflexivity; cbn [m_len m_hdr aligned aux_wf]; try lia; try exact Hh; try exact I.
+      replace (HEADER_OFFSET + size * len d - HEADER_OFFSET) with (len d * size) by lia.
+      apply N.mod_mul. lia.
+    + cbn [s_main with_holes].
+      repeat apply conj; try reflexivity; cbn [m_len m_hdr aligned aux_wf]; try lia; try exact Hh.
+      * replace (HEADER_OFFSET + size * len d - HEADER_OFFSET) with (len d * size) by lia.
+        apply N.mod_mul. lia.
+      * unfold holes_wf. cbn [s_holes a_len]. rewrite (N.mul_comm SIZE_OF_USIZE). apply N.mod_mul. discriminate.
+  - destruct d as [|x d].
+    + destruct (Hc eq_refl eq_refl) as (Hl & Hd & Hp). exists m0.
+      repeat apply conj; auto; cbn [aligned aux_wf after_open]; auto.
+      * unfold pages_wf. rewrite Hp. reflexivity.
+      * unfold ensure_pages. rewrite Hp. now apply with_pages_same.
+      * unfold view_of, pages_list. rewrite Hp, Hd. reflexivity.
+    + eexists. destruct s as [mm pp hh]; cbn [s_main s_holes s_pages with_main with_pages] in *.
+      repeat apply conj; try reflexivity; cbn [m_len m_hdr aligned aux_wf]; try lia; try exact Hh; try exact I.
+      unfold view_of, pages_list. cbn [s_pages with_pages with_main a_data sumN m_data]. f_equal. unfold take, len.
+      replace (N.to_nat (N.of_nat (length (x :: d)) + 0)) with (length (x :: d)) by lia.
+      apply firstn_all.
+Qed.
+
+Lemma same_request_after_fill oc size clen q s m0 rv d h :
+  0 < size -> eff_req oc q = Ok rv -> s_main s = Some m0 -> m_hdr m0 = hdr_of rv (q_fmt q) ->
+  (req_fam q = Raw -> eff_holes q h = [] -> s_holes s = None) ->
+  (req_fam q = Comp -> d = [] ->
+   HEADER_OFFSET <= m_len m0 /\ m_data m0 = [] /\ s_pages s = Some {| a_len := 0; a_data := [] |}) ->
+  run_entry oc size None q (fill (req_fam q) size clen d (eff_holes q h) s) =
+  (fill (req_fam q) size clen d (eff_holes q h) s, Ok {| v_data := d; v_holes := eff_holes q h |}).
+Proof.
+  intros Hs He Hm Hh Hr Hc.
+  destruct (fill_facts (req_fam q) size clen rv (q_fmt q) d (eff_holes q h) s m0 Hm Hh Hs Hr Hc)
+    as (m2 & Hm2 & Hl2 & Hh2 & Ha2 & Hw2 & Hao & Hv).
+  assert (Hview : {| v_data := d; v_holes := match req_fam q with Raw => eff_holes q h | Comp => [] end |} =
+                  {| v_data := d; v_holes := eff_holes q h |}).
+  { unfold eff_holes. destruct (req_fam q); reflexivity. }
+  unfold run_entry, eff_req, req_fam in *. destruct (q_entry q).
+  - rewrite (import_match_keeps oc _ size _ m2 (q_ver q) (q_fmt q) rv Hm2 Hl2 He Hh2 Ha2 Hw2).
+    now rewrite Hao, Hv, Hview.
+  - rewrite (forced_match_keeps oc _ size _ m2 (q_ver q) (q_fmt q) rv Hm2 Hl2 He Hh2 Ha2 Hw2).
+    now rewrite Hao, Hv, Hview.
+Qed.
+
+(* the vector re-created by the reset arm is stored under the version the same request asks for *)
+Theorem reset_then_same_request_keeps oc size clen q1 q2 d h s sv rv :
+  0 < size -> created oc size clen q1 d h = Some s -> q_entry q2 = EForced ->
+  eff_req oc q1 = Ok sv -> eff_req oc q2 = Ok rv -> (rv <> sv \/ q_fmt q2 <> q_fmt q1) ->
+  exists s', run_entry oc size None q2 s = (s', Ok empty_view) /\
+    forall clen' d' h',
+      run_entry oc size None q2 (fill (req_fam q2) size clen' d' (eff_holes q2 h') s') =
+      (fill (req_fam q2) size clen' d' (eff_holes q2 h') s', Ok {| v_data := d'; v_holes := eff_holes q2 h' |}).
+Proof.
+  intros Hs Hc He H1 H2 Hn. pose proof Hc as Hc0. apply created_shape in Hc. destruct Hc as (sv' & H1' & ->).
+  rewrite H1 in H1'. injection H1' as <-.
+  destruct (shape_facts (req_fam q1) size clen sv (q_fmt q1) d (eff_holes q1 h)) as (Hm & Hl & Hh & _).
+  assert (Hb : format_byte_ok (h_fmt (m_hdr (shape_main (req_fam q1) size clen sv (q_fmt q1) d))) = true)
+    by (rewrite Hh; apply fcode_ok).
+  assert (Hne : m_hdr (shape_main (req_fam q1) size clen sv (q_fmt q1) d) <> hdr_of rv (q_fmt q2))
+    by (rewrite Hh; now apply hdr_of_neq).
+  assert (H2' : eff oc (fam_of (q_fmt q2)) EForced (q_ver q2) = Ok rv) by (unfold eff_req in H2; now rewrite He in H2).
+  pose proof (forced_mismatch_resets oc (fam_of (q_fmt q2)) size _ _ (q_ver q2) (q_fmt q2) rv Hm Hl Hb H2' Hne) as E.
+  eexists. split.
+  - unfold run_entry. rewrite He. exact E.
+  - intros clen' d' h'.
+    set (s0 := shape (req_fam q1) size clen sv (q_fmt q1) d (eff_holes q1 h)) in *.
+    apply (same_request_after_fill oc size clen' q2 _ (fresh_main rv (q_fmt q2)) rv d' h' Hs H2).
+    + unfold req_fam. destruct (fam_of (q_fmt q2)), s0; reflexivity.
+    + reflexivity.
+    + unfold req_fam. intros Hf _. rewrite Hf. destruct s0; reflexivity.
+    + unfold req_fam. intros Hf _. rewrite Hf. destruct s0; cbn. repeat split. lia.
+Qed.
+
+(* ... and so is the vector that was kept: extend it, write, same request again *)
+Theorem extend_then_same_request_keeps oc size clen clen' q1 q2 d h s sv d' h' :
+  0 < size -> created oc size clen q1 d h = Some s ->
+  eff_req oc q1 = Ok sv -> eff_req oc q2 = Ok sv -> q_fmt q2 = q_fmt q1 ->
+  (eff_holes q2 h' = [] -> eff_holes q1 h = []) ->          (* deleted slots are not all un-deleted *)
+  (req_fam q2 = Comp -> d' = [] -> d = []) ->                (* a compressed vector is not emptied *)
+  run_entry oc size None q2 (fill (req_fam q2) size clen' d' (eff_holes q2 h') s) =
+  (fill (req_fam q2) size clen' d' (eff_holes q2 h') s, Ok {| v_data := d'; v_holes := eff_holes q2 h' |}).
+Proof.
+  intros Hs Hc H1 H2 Hf Hho Hde. apply created_shape in Hc. destruct Hc as (sv' & H1' & ->).
+  rewrite H1 in H1'. injection H1' as <-.
+  destruct (shape_facts (req_fam q1) size clen sv (q_fmt q1) d (eff_holes q1 h)) as (Hm & Hl & Hh & _).
+  assert (Hfam : req_fam q2 = req_fam q1) by (unfold req_fam; now rewrite Hf).
+  apply (same_request_after_fill oc size clen' q2 _ _ sv d' h' Hs H2 Hm).
+  - now rewrite Hf.
+  - intros Hr He. rewrite Hfam in Hr. rewrite (Hho He). rewrite Hr. reflexivity.
+  - intros Hr He. rewrite (Hde Hr He). rewrite Hfam in Hr. rewrite Hr. cbn. repeat split. lia.
+Qed.
+
 (* ------------------------------------------------------------------ overflow of Version + Version *)
 Theorem eff_in_range oc q :
   q_ver q + N.of_nat (adds (req_fam q) (q_entry q)) * layer_version (req_fam q) < two32 ->
